@@ -109,7 +109,7 @@ def ro_check(kind, setup, ops, scratch):
             uk, uo = L.observe(u, K, unK, OBS)
             vt, ut = L.state_text(vk, vo), L.state_text(uk, uo)
             if vt != ut:
-                dd = L.first_difference(["x;" + vt], ["x;" + ut], OBS, [op])
+                dd = L.first_difference(["", "x;" + vt], ["", "x;" + ut], OBS, [op])
                 return ("ro-reads", "%s: the view reads %s, the underlying store %s" % (where, dd[0], dd[1])), vs, us
             if L.raw_snapshot(u) != raw1:
                 return ("ro-unchanged", "%s: reading through the view changed the underlying store" % where), vs, us
@@ -186,6 +186,16 @@ def run_ro(ctx, procs):
                 continue
             seen.add(clause)
             s, o_ = cases[i]
+            # smaller reproductions first: no set-up / one operation
+            for s2, o2 in [([], o_[j:j + 1]) for j in range(len(o_))] + [(s, o_[j:j + 1]) for j in range(len(o_))] + [([], o_), (s, [])]:
+                scratch = common.scratch_dir()
+                try:
+                    b2, _, _ = ro_check(kind, s2, o2, scratch)
+                finally:
+                    shutil.rmtree(scratch, ignore_errors=True)
+                if b2 and b2[0] == clause:
+                    s, o_, text = s2, o2, b2[1]
+                    break
             ctx.violation(clause if clause == "ro-openbin-write" else "%s:%s" % (clause, kind), "underlying %s, %s" % (kind, text),
                           dict(kind="ro", underlying=kind, setup=[L.op_to_json(x) for x in s], ops=[L.op_to_json(x) for x in o_]))
         if kind in models:
